@@ -1,3 +1,4 @@
+import re
 """C06 — serving capacity survives any history of connections (structural)."""
 from ..callgraph import callee_name
 from ..cfg import cfg_of
@@ -48,6 +49,18 @@ def run(ctx):
         g = guards_of(fn)
         nexts = [bid for bid, t in fn.calls() if (callee_name(t) or "").endswith("as std::iter::Iterator>::next") and "std::net::Incoming" in " ".join(t.get("arg_tys", []) + [callee_name(t) or ""])]
         if not nexts:
+            # the accept loop as an iterator pipeline: `listener.incoming().filter_map(..).for_each(|c| pool.execute(..))`. The stream of
+            # connections is consumed to its end exactly when no adaptor on the way can stop it on a per-connection condition
+            names_ = [(callee_name(t) or t.get("callee") or "") for _, t in fn.calls()]
+            consumed = any(n_.endswith(("::for_each", "::count", "::last")) for n_ in names_) and any(n_ == "std::net::TcpListener::incoming" for n_ in names_)
+            stoppers = sorted({n_.rsplit("::", 1)[-1] for n_ in names_ if re.search(r"::(map_while|take_while|take|scan|try_for_each|try_fold|find|find_map|any|all|position|nth|next|fuse)$", n_)
+                               and ("Iterator" in n_ or "iter::" in n_)})
+            if consumed:
+                ok = not stoppers
+                r2.instance({"accept_loop": al, "form": "iterator pipeline consumed by for_each", "adaptors_that_can_end_the_stream": stoppers}, ok)
+                if not ok:
+                    r2.violate("C06|R2|%s|pipeline-stops" % al, "%s consumes TcpListener::incoming through %s: the first connection for which that adaptor answers None / false ends the accept loop, the server stops accepting" % (al, ", ".join(stoppers)), fn.file, fn.span["line"], al)
+                continue
             r2.violate("C06|R2|%s|no-incoming-next" % al, "%s does not iterate TcpListener::incoming (anchor missing)" % al)
             continue
         none_edges = []
